@@ -10,7 +10,7 @@ def components():
 
 
 def oracles_():
-    return [comps.XmlEscStd(), oracles.StdReaders(), comps_doc.WellFormedX()]
+    return [comps.XmlEscStd(), oracles.StdReaders(), comps_doc.WellFormedX(), comps_doc.QNamesX()]
 
 
 MANIFEST = {
@@ -40,7 +40,13 @@ MANIFEST = {
             "the RFC 7951 rendering of the selected part; since f592167 also in trim mode: the former C12_json_trim_refuted is "
             "the positive Example C12_json_trim_regression). Tie as for C01 (byte-identical output, the "
             "standard readers of the Coq development run on libyang's bytes). WellFormedX: expat / json on libyang's output for "
-            "opaque nodes, anydata / anyxml and operations.",
+            "opaque nodes, anydata / anyxml and operations. QNamesX: on the value-type module family of RoundTripTypes (every "
+            "type as leaf, key, leafref, union member, annotation; identities of three modules; module families in which two "
+            "or three modules legally share ONE prefix) expat with namespace processing reads libyang's XML and every prefix "
+            "inside a value (identityref, instance-identifier, xpath1.0, unions) and every metadata attribute must stand for "
+            "the namespace it stands for in the input document; Python json reads the JSON and identityref values must name "
+            "the right module. Fixed: xml-value-ns-redeclared (a prefix defined twice in one start tag; e9b7253). Listed: "
+            "xml-same-prefix-value-clash (values are printed with the modules' own prefixes; open).",
     "note": "Modelled C: lyxml_dump_text, json_print_string (+ lexers), xml_print_data and json_print_data on the Tree subset "
             "(one data module, shrink mode, no anydata / opaque nodes / unions / tagged with-defaults modes). Outside that subset the "
             "document-level structure is only checked by the expat/json oracles on generated instances, which is testing. Since "
